@@ -1,10 +1,12 @@
 #!/bin/bash
-# usage: tools/try_seed.sh <patch.diff> <PROP> [extra check args]   -- applies the patch to /repo, runs the check, always reverts
+# usage: tools/try_seed.sh <patch.diff> <PROP> [extra check args]
+# Runs the property's check against a scratch worktree of /repo HEAD with the patch applied (SYMX_REPO), then removes
+# the worktree.  (Equivalent to `git -C /repo apply`, run, `git -C /repo checkout -- .`, but safe while other runs use /repo.)
 P="$1"; shift; PROP="$1"; shift
-cd /repo || exit 9
-if ! git diff --quiet; then echo "/repo not clean"; exit 9; fi
-git apply "$P" || { echo "patch does not apply"; exit 9; }
-cd /verif && ./check "$PROP" --no-evidence "$@" 2>&1 | grep -v "^  \|^HARNESS-ERROR\|^MODEL-MISMATCH\|^INCONCLUSIVE" | cut -c1-300 | tail -8
+WT=/tmp/try_$$_$PROP
+git -C /repo worktree add -q "$WT" HEAD || exit 9
+git -C "$WT" apply "$P" || { echo "patch does not apply"; git -C /repo worktree remove --force "$WT"; exit 9; }
+cd /verif && SYMX_REPO="$WT" ./check "$PROP" --no-evidence "$@" 2>&1 | grep -v "^  \|^HARNESS-ERROR\|^MODEL-MISMATCH\|^INCONCLUSIVE" | cut -c1-300 | tail -8
 rc=${PIPESTATUS[0]}
-git -C /repo checkout -- .
+git -C /repo worktree remove --force "$WT"
 echo "exit=$rc"
